@@ -95,6 +95,27 @@ def sb6(facts, rep):
         rep.bad(rule, key, '%s:%s' % (r.file, r.line), 'word-size assertions differ: qgrams %s, rev_qgrams %s' % (gq, gr))
 
 
+def _tuple_field_source(b, l, idx):
+    """place moved into field idx of the tuple held in local l (followed through plain moves), or None"""
+    seen = set()
+    while l not in seen:
+        seen.add(l)
+        sd = b.single_def(l)
+        if sd is None or sd[0] != 'stmt':
+            return None
+        r = sd[3]['r']
+        if r['k'] == 'use':
+            q = r['o'].get('c') or r['o'].get('m')
+            if q is None or 'pj' in q:
+                return None
+            l = q['l']
+            continue
+        if r['k'] == 'agg' and r.get('ak') == 'tuple' and idx < len(r['ops']):
+            return r['ops'][idx].get('c') or r['ops'][idx].get('m')
+        return None
+    return None
+
+
 def vec_root(b, o):
     """local of the Vec a (possibly deref_mut'd / reborrowed) reference operand points to"""
     pl = o.get('c') or o.get('m')
@@ -117,6 +138,11 @@ def vec_root(b, o):
                 return None
             if r['k'] == 'use':
                 pl = r['o'].get('c') or r['o'].get('m')
+                # a vector moved out of a freshly built tuple (e.g. the pair returned by an inlined helper)
+                if pl is not None and len(pl.get('pj', [])) == 1 and isinstance(pl['pj'][0], dict) and 'f' in pl['pj'][0]:
+                    q = _tuple_field_source(b, pl['l'], pl['pj'][0]['f'])
+                    if q is not None:
+                        pl = q
                 continue
             return l
         if sd[0] == 'call':
@@ -142,6 +168,11 @@ def sorted_after_push(b, vec_local):
         if nm.startswith('sort') and vec_root(b, t['args'][0]) == vec_local:
             sorts.append(bb)
     return pushes, sorts
+
+
+def SPARSE_KEEP(path):
+    return path.rsplit('::', 1)[-1] in ('lcskpp', 'sdpkpp', 'sdpkpp_union_lcskpp_path', 'expand_kmer_matches', 'hash_kmers',
+                                        'find_kmer_matches', 'find_kmer_matches_seq1_hashed', 'find_kmer_matches_seq2_hashed')
 
 
 def ts8(facts, rep):
@@ -183,11 +214,14 @@ def ts8(facts, rep):
                                            '(band construction, sparse DP) require sorted matches')
         else:
             rep.ok(rule, key, b.loc(sorts[0]) if sorts else '', '%d push site(s), sort dominates every return path' % len(pushes))
+    from . import inline
     for nm in ('lcskpp', 'sdpkpp'):
         b = facts.body('alignment::sparse::' + nm)
         if b is None:
             rep.missing(rule, 'alignment::sparse::' + nm, 'not found')
             continue
+        # private helpers (event construction, traceback) are analysed in place
+        b = inline.inlined(facts, b, SPARSE_KEEP)
         rep.analysed_body(b)
         key = 'alignment::sparse::%s|events-sorted-before-sweep' % nm
         # the events vector: the one that is sorted
@@ -223,17 +257,30 @@ def ts8(facts, rep):
 PO6_AUDIT = {
     'QGramIndex::qgram_matches|index:|index(arg1.address,arg2)<std::vec::Vec<usize>>':
         'callers pass codes yielded by self.ranks.qgrams(self.q, ..), which are < 2^(q*width) = address.len() - 1 (CS-1)',
-    'QGramIndex::qgram_matches|overflow-add:usize|arg2,1': 'qgram < 2^(q*width) <= usize::MAX / 2',
-    'QGramIndex::qgram_matches|index:|index(arg1.address,Add(arg2,1).0)<std::vec::Vec<usize>>': 'address has code space + 1 entries',
+    'QGramIndex::qgram_matches|overflow-add:usize|arg2,1':
+        'qgram < 2^(q*width) <= usize::MAX / 2',
+    'QGramIndex::qgram_matches|index:|index(arg1.address,Add(arg2,1).0)<std::vec::Vec<usize>>':
+        'address has code space + 1 entries',
     'QGramIndex::qgram_matches|index:|index(arg1.pos,Range::Range{Index<I>>::index(arg1.address,arg2),Index<I>>::index(arg1.address,Add(arg2,1).0)})<std::vec::Vec<usize>>':
         'address is a prefix sum whose last entry is pos.len(): address[c] <= address[c+1] <= pos.len()',
-    'QGramIndex::matches|overflow-add:usize|x0,x1': 'text / pattern positions plus q stay far below usize::MAX',
-    'QGramIndex::matches|overflow-add:usize|x0.count,1': 'at most one hit per (pattern position, text position)',
-    'QGramIndex::matches|overflow-sub:isize|x0,x1': 'difference of two positions < isize::MAX taken in isize',
-    'QGramIndex::exact_matches|overflow-sub:i32|x0,x1': 'difference of two positions taken in i32 (sequences shorter than 2^31)',
-    'QGramIndex::exact_matches|overflow-add:usize|x0,x1': 'positions plus q stay far below usize::MAX',
-    'QGramIndex::exact_matches|overflow-sub:usize|x0.pattern.stop,x1': 'pattern.stop = i + q >= q',
-    'QGramIndex::exact_matches|overflow-add:usize|Sub(x0.pattern.stop,x1).0,1': 'stop - q + 1 <= stop',
+    'QGramIndex::matches|overflow-add:usize|(Iterator>::next(x0) as Some).0.0,arg1.q':
+        'text / pattern positions plus q stay far below usize::MAX',
+    'QGramIndex::matches|overflow-add:usize|(Iterator>::next(x0) as Some).0,arg1.q':
+        'text / pattern positions plus q stay far below usize::MAX',
+    'QGramIndex::matches|overflow-add:usize|OccupiedEntry::get_mut(x0).count,1':
+        'at most one hit per (pattern position, text position)',
+    'QGramIndex::matches|overflow-sub:isize|(Iterator>::next(x0) as Some).0,(Iterator>::next(x1) as Some).0.0':
+        'difference of two positions < isize::MAX taken in isize',
+    'QGramIndex::exact_matches|overflow-sub:i32|(Iterator>::next(x0) as Some).0,(Iterator>::next(x1) as Some).0.0':
+        'difference of two positions taken in i32 (sequences shorter than 2^31)',
+    'QGramIndex::exact_matches|overflow-add:usize|(Iterator>::next(x0) as Some).0.0,arg1.q':
+        'positions plus q stay far below usize::MAX',
+    'QGramIndex::exact_matches|overflow-add:usize|(Iterator>::next(x0) as Some).0,arg1.q':
+        'positions plus q stay far below usize::MAX',
+    'QGramIndex::exact_matches|overflow-sub:usize|OccupiedEntry::get_mut(x0).pattern.stop,arg1.q':
+        'pattern.stop = i + q >= q',
+    'QGramIndex::exact_matches|overflow-add:usize|Sub(OccupiedEntry::get_mut(x0).pattern.stop,arg1.q).0,1':
+        'stop - q + 1 <= stop',
 }
 
 
@@ -244,15 +291,19 @@ def po6(facts, rep):
                    'may-panic call is discharged or audited; in particular a diagonal (text position - pattern position) must '
                    'be computed in a signed type, because hits with text position < pattern position are legitimate')
     total = 0
+    from .po_known import KNOWN
+    bodies = []
     for nm in ('qgram_matches', 'matches', 'exact_matches'):
         b = facts.method(QI, nm)
         if b is None:
             rep.missing(rule, QI + '::' + nm, 'not found')
             continue
+        bodies.append(b)
+    for b, nb, ia, obs in eng_po.scan(facts, bodies, KNOWN):
+        nm = b.name
         rep.analysed_body(b)
-        ia = eng_po.Intervals(b, facts).run()
         seen = {}
-        for o in eng_po.obligations(b, ia):
+        for o in obs:
             total += 1
             key = 'QGramIndex::%s|%s:%s|%s' % (nm, o['kind'], o.get('ty', '') if o['kind'].startswith('overflow') else '', o['ops'])
             seen[key] = seen.get(key, 0) + 1
@@ -272,3 +323,6 @@ def run(facts, rep, ctx):
     cs1(facts, rep)
     sb6(facts, rep)
     ts8(facts, rep)
+    from . import c19b
+    c19b.dk1(facts, rep)
+    c19b.ev1(facts, rep)
